@@ -298,7 +298,31 @@ def encode_blt(text, rnd=None):
 # options
 # --------------------------------------------------------------------------
 
+def cli_style(rnd, o):
+    """the same options as a command line delivers them: every value a string ('precision=6' arrives as '6'); the
+    package turns plain digit strings into ints itself, signed or padded ones ('+7', ' 7') stay strings until the code
+    that uses them converts them"""
+    out = {}
+    for k, v in o.items():
+        if isinstance(v, bool) or k == 'rule' or not isinstance(v, int):
+            out[k] = v
+        elif k == 'omega' and rnd.random() < 0.8:
+            out[k] = rnd.choice(('+%d', ' %d', '%d ', '0%d')) % v
+        else:
+            out[k] = str(v)
+    return out
+
+
 def gen_options(rnd, rule=None, flags=None, n=4, slow_ok=False):
+    o = _gen_options(rnd, rule=rule, flags=flags, n=n, slow_ok=slow_ok)
+    if rnd.random() < 0.25:
+        if o.get('rule') in ('meek', 'warren') and 'omega' not in o:
+            o['omega'] = rnd.randint(1, 9)
+        o = cli_style(rnd, o)
+    return o
+
+
+def _gen_options(rnd, rule=None, flags=None, n=4, slow_ok=False):
     """an option dict for Election(profile, options): rule plus rule/arithmetic options.
 
     For statutory rules options are either absent or arbitrary (they are forced away).
@@ -488,7 +512,7 @@ def droop_tokens(o, rnd=None):
         elif isinstance(v, bool):
             out.append("%s=%s" % (k, 'true' if v else 'false'))
         else:
-            out.append("%s=%s" % (k, v))
+            out.append("%s=%s" % (k, str(v).strip()))       # a token cannot contain a blank
     return out
 
 
